@@ -160,6 +160,20 @@ def check(ctx):
             ctx.ob("R-3", "key::CoseKey:label-%d-admitted-to-params" % k, False,
                    "the decoder routes integer label %d to `params`, but its encoding (0x%s) orders before the typed label %d, so sorting only "
                    "`params` leaves the map unsorted" % (k, enc(k).hex(), top), where=d.span)
+        # "a canonicalised key decodes and re-encodes to the same bytes": the decoder appends the extras in wire order and
+        # nothing re-orders them afterwards (the recognisers of C10 R-1 under this property's name)
+        from lib import codec as _codec
+        dflt = []
+        for cls, effs in md.table.items():
+            if md.class_name(cls) == "default":
+                dflt.extend(effs)
+        appended = (len(dflt) == 1 and dflt[0][0] == "params" and dflt[0][1]["kind"] == "call" and dflt[0][1]["callee"] == _codec.VEC_PUSH
+                    and md.sym(dflt[0][1]["args"][1]) == ("tuple", (("sym", "label"), ("sym", "value"))))
+        stray = [(f, (e.get("callee") or "assignment").split("::")[-1]) for f, e in md.outside_effects if f == "params"]
+        ctx.ob("R-3", "decoder-keeps-wire-order", appended and not stray,
+               "the decoder appends every extra (label, value) to `params` in wire order (push, no ordered insert) and nothing touches "
+               "`params` outside the entry loop, so a canonicalised key decodes to the same order", where=d.span,
+               detail={"default_arm": [(f, e.get("callee")) for f, e in dflt], "outside": stray})
         ctx.ob("R-3", "typed-labels-never-in-params(decoder)", all(k in md.listed for k in candidates if k >= 1),
                "labels 1..%d are dispatched to typed fields and never reach `params` on decode" % top, where=d.span,
                detail={"candidates_below_typed": candidates, "dispatched": sorted(md.listed)})
